@@ -533,7 +533,7 @@ func (j *jsonReader) DateTime(tag int) (time.Time, error) {
 			if epoch < 0 {
 				return time.Time{}, Errorf("date-time cannot be negative")
 			}
-			t := time.Unix(epoch, 0).UTC()
+			t := time.Unix(epoch, 0)
 			if t.Year() > 9999 {
 				// Such a date cannot be written back in the RFC 3339 form used by the text encodings
 				return time.Time{}, Errorf("date-time is out of range")
